@@ -340,12 +340,18 @@ func (e *c17env) inFlight() {
 				return true
 			})
 			c.Check("cursor", fn+"|init", w.Pos, c17Const(winfo, val) == "0", "a new connect task starts at its first block (cur: 0)")
-		case "incdec":
-			s, _ := n.Ast.(*ast.IncDecStmt)
+		case "incdec", "op-assign", "assign":
+			// a write that steps the cursor relative to itself (`cur++`, `cur += k`,
+			// `cur = cur + k`): the step, whatever its spelling, must be exactly +1
+			step, self := c17SelfStep(winfo, n, curIdx)
+			if !self {
+				c.Check("cursor", fn+"|"+w.How, w.Pos, false, "ConnectTask.cur is written in an unexpected way ("+w.How+")")
+				break
+			}
 			edges := wg.EdgesImplying(e.curNilAtom(winfo), map[string]bool{"CURNIL": true})
-			ok := w.Fn == next && s != nil && s.Tok == token.INC && !wg.InLoop(n) && wg.Dominated(n, edges)
+			ok := w.Fn == next && step == 1 && !wg.InLoop(n) && wg.Dominated(n, edges)
 			nInc++
-			c.Check("cursor", fn+"|advance", w.Pos, ok, "the task cursor advances by exactly one (`cur++`, not in a loop) and only when no block is in flight: no block is skipped or submitted twice")
+			c.Check("cursor", fn+"|advance", w.Pos, ok, "the task cursor advances by exactly one (`cur++` / `cur += 1`, not in a loop) and only when no block is in flight: no block is skipped or submitted twice")
 		default:
 			c.Check("cursor", fn+"|"+w.How, w.Pos, false, "ConnectTask.cur is written in an unexpected way ("+w.How+")")
 		}
@@ -369,6 +375,70 @@ func (e *c17env) inFlight() {
 		c.Undecide("cursor", next.Name()+"|index", "no indexing of ConnectTask.Blocks found")
 	}
 	c.Floor("cursor", 3)
+}
+
+// c17SelfStep: is the statement at n a step of `field` relative to its own
+// value, and by how much?  `x.f++` (+1), `x.f--` (-1), `x.f += k` / `x.f -= k`
+// with constant k, `x.f = x.f + k` in any linear spelling (linOf).  self is
+// false for a write that does not read the field back (a plain assignment);
+// step is 0 when the write is relative but its amount is not a constant.
+func c17SelfStep(info *types.Info, n *an.Node, field *types.Var) (step int64, self bool) {
+	if n == nil {
+		return 0, false
+	}
+	constOf := func(lf linForm, ok bool) int64 {
+		if !ok || len(lf) != 1 {
+			return 0
+		}
+		return lf["1"]
+	}
+	switch s := n.Ast.(type) {
+	case *ast.IncDecStmt:
+		if an.FieldOf(info, s.X) != field {
+			return 0, false
+		}
+		if s.Tok == token.INC {
+			return 1, true
+		}
+		return -1, true
+	case *ast.AssignStmt:
+		if len(s.Lhs) != 1 || len(s.Rhs) != 1 || an.FieldOf(info, s.Lhs[0]) != field {
+			return 0, false
+		}
+		switch s.Tok {
+		case token.ADD_ASSIGN:
+			return constOf(linOf(info, s.Rhs[0])), true
+		case token.SUB_ASSIGN:
+			return -constOf(linOf(info, s.Rhs[0])), true
+		case token.ASSIGN:
+			// the base must be a plain selector chain (no call, no index) so that
+			// equal spelling means equal location
+			for b := ast.Unparen(s.Lhs[0]); ; {
+				if sel, ok := b.(*ast.SelectorExpr); ok {
+					b = ast.Unparen(sel.X)
+					continue
+				}
+				if _, ok := b.(*ast.Ident); !ok {
+					return 0, false
+				}
+				break
+			}
+			l, ok1 := linOf(info, s.Lhs[0])
+			r, ok2 := linOf(info, s.Rhs[0])
+			if !ok1 || !ok2 || len(l) != 1 {
+				return 0, false
+			}
+			for k := range l {
+				if r[k] != 1 {
+					return 0, false
+				}
+			}
+			return constOf(r.add(l, -1), true), true
+		default:
+			return 0, true // `*=` and friends: relative, never a step of one
+		}
+	}
+	return 0, false
 }
 
 // ---------------------------------------------------------------------------
